@@ -992,6 +992,7 @@ func (s *StoreSim) ScaleProbe(seed uint64, idx int, thorough bool) (*Violation, 
 			return c
 		}},
 	}
+	chainedAt := make([]bool, len(damage)+2)
 	points := make([][]scalePoint, len(damage)+2)
 	inputs := make([][][]byte, len(damage)+2)
 	for _, n := range sizes {
@@ -1039,6 +1040,11 @@ func (s *StoreSim) ScaleProbe(seed uint64, idx int, thorough bool) (*Violation, 
 			} else {
 				continue
 			}
+			if chainedAt[di] {
+				// the listed error-chain finding already showed at a smaller size for this damage:
+				// four times the depth is sixteen times the text (gigabytes), and nothing new
+				continue
+			}
 			input := d.f(rec)
 			c := &StoreCase{Type: tn, Reader: tn, Mode: "unmarshal", Cfg: cfg, Fault: fmt.Sprintf("scale probe: %d elements, %s", n, d.name), Scale: &ScaleCase{Seed: seed, Index: idx, N: n, Damage: di}}
 			s.St.ByFault["scale_"+strings.ReplaceAll(d.name, " ", "_")]++
@@ -1083,6 +1089,7 @@ func (s *StoreSim) ScaleProbe(seed uint64, idx int, thorough bool) (*Violation, 
 							s.Soft = append(s.Soft, SoftViolation{violStore("blowup-errorchain", "", fmt.Sprintf("decoding a %d-byte input (%s) allocated %d bytes (allowance %d): the decode failed %d levels deep and every level wrapped the error text of the level below (final text %d bytes)", len(input), c.Fault, res.alloc, bound, lv, len(res.err)), &cc), &cc})
 						}
 						chained = true
+						chainedAt[di] = true
 						break
 					}
 					return violStore("blowup", "", fmt.Sprintf("decoding a %d-byte input (%s) allocated %d bytes (allowance %d)", len(input), c.Fault, res.alloc, bound), c), c
